@@ -261,7 +261,7 @@ def run_range_trace(ctx, binary):
     tp = os.path.join(ctx.work, "range.types.json")
     json.dump(WIDE_INT, open(tp, "w"))
     op = os.path.join(ctx.work, "range.trace.ndjson")
-    per = 70 if ctx.quick else 700
+    per = 70 if ctx.quick else 400
     ctx.run([binary, "rangetrace", tp, op, str(per)], timeout=3000)
     summ, events = split_out(ctx, op, "rangetrace")
     if not events:
@@ -331,7 +331,251 @@ def check_C21(ctx):
     ])
 
 
+# ================================================================================================ C15
+FIXED = ["Fix64", "UFix64", "Fix128", "UFix128"]
+FXBASE = BIG + ["num/FixedPoint.tla"]
+
+
+def write_cfg(ctx, name, text):
+    p = os.path.join(ctx.work, name)
+    with open(p, "w") as fh:
+        fh.write(text)
+    return p
+
+
+def laws_job(ctx):
+    cfg = "FixedPointLaws_%s.cfg" % ("quick" if ctx.quick else "thorough")
+    return {"files": BIG + ["num/FixedPointLaws.tla", "num/" + cfg], "module": "FixedPointLaws", "cfg": cfg, "tag": "laws", "timeout": 1500}
+
+
+def check_laws(res):
+    if not any("FixedPointLaws checked" in ln for ln in res.lines):
+        raise Infra("FixedPointLaws did not evaluate its assumptions")
+
+
+def scaled(t_scale, x):
+    if t_scale == 0:
+        return str(x)
+    s = str(abs(x)).rjust(t_scale + 1, "0")
+    return ("-" if x < 0 else "") + s[:-t_scale] + "." + s[-t_scale:]
+
+
+def fx_desc(e, scale):
+    s = "%s  ->  %s" % (e["expr"], e["out"])
+    if e["out"] == "ok":
+        s += " " + scaled(scale, zval(e["r"]))
+    return s + "   observed via " + "+".join(e["via"])
+
+
+def fx_controls(events):
+    """Corrupted copies of real events: one result limb changed, ok -> error, error -> ok, remainder changed."""
+    def pick(pred, what):
+        e = next((e for e in events if pred(e)), None)
+        if e is None:
+            raise Infra("no event suitable for the negative control (%s)" % what)
+        return json.loads(json.dumps(e))
+    big = lambda e: e["out"] == "ok" and e["r"]["m"] and e["r"]["m"][0] >= 2
+    c1 = pick(lambda e: e["op"] == "mul" and big(e), "mul"); c1["k"] = 0; c1["r"]["m"][0] ^= 1
+    c2 = pick(lambda e: e["op"] == "div" and big(e), "div"); c2["k"] = -1; c2["out"] = "overflow"; c2["r"] = {"n": False, "m": []}
+    c3 = pick(lambda e: e["op"] == "muldiv" and e["out"] in ("overflow", "underflow"), "muldiv range error"); c3["k"] = -2
+    c3["out"] = "ok"; c3["r"] = c3["a"]
+    c4 = pick(lambda e: e["op"] == "mod" and big(e), "mod"); c4["k"] = -3; c4["r"]["m"][0] ^= 1
+    c5 = pick(lambda e: e["op"] == "muldiv" and e["rule"] == "nearestHalfEven" and big(e), "muldiv half-even"); c5["k"] = -4
+    c5["r"]["m"][0] ^= 1
+    return [c1, c2, c3, c4, c5]
+
+
+def check_C15(ctx):
+    _env()
+    binary = ctx.build("numfix")
+    sel = ", ".join('"%s"' % t for t in FIXED)
+    ocfg = write_cfg(ctx, "FixedPointOperands.cfg",
+                     "SPECIFICATION Spec\nCONSTANTS Sel = {%s}\n Dense = %s\nINVARIANT Emit\n" % (sel, "FALSE" if ctx.quick else "TRUE"))
+    jobs = [types_job(), laws_job(ctx),
+            {"files": FXBASE + ["num/FixedPointOperands.tla", ocfg], "module": "FixedPointOperands", "cfg": os.path.basename(ocfg),
+             "tag": "operands", "timeout": 1500}]
+    res = par_tlc(ctx, jobs)
+    sema, spec, rules = check_sema(ctx, binary, res[0])
+    check_laws(res[1])
+    for t in FIXED:
+        if sema[t]["muldiv_params"] != ["factor", "divisor", "rounding"]:
+            raise Infra("sema declares %s.multiplyDivide%s; the driver renders (factor, divisor, rounding:)" % (t, sema[t]["muldiv_params"]))
+    ops = res[2].json_lines()
+    if len(ops) != len(FIXED):
+        raise Infra("FixedPointOperands printed %d types, expected %d" % (len(ops), len(FIXED)))
+    opath = os.path.join(ctx.work, "fx.operands.ndjson")
+    write_ndjson(opath, ops)
+    tpath = os.path.join(ctx.work, "fx.trace.ndjson")
+    pairs, triples = (700, 220) if ctx.quick else (3000, 1200)
+    ctx.run([binary, "fx", opath, tpath, str(pairs), str(triples)], timeout=3000)
+    summ, events = split_out(ctx, tpath, "fx")
+    if not events:
+        raise Infra("fx produced no events")
+    for e in events:
+        if e["out"].startswith("other:") and ("Checker" in e["out"] or "Pars" in e["out"]):
+            raise Infra("generated script rejected by the checker: %s" % e["out"])
+    files = FXBASE + ["num/FixedPointJudge.tla", "num/FixedPointJudge.cfg"]
+    verdicts, judged, nchunks = judge_chunks(ctx, events, files, "FixedPointJudge", "FixedPointJudge.cfg", "fxjudge", fx_controls(events))
+    byk = {e["k"]: e for e in events}
+    scale = {t: spec["types"][t]["scale"] for t in FIXED}
+    for v in verdicts:
+        ev = byk[v["k"]]
+        if v["v"] == "malformed":
+            raise Infra("fixed-point event malformed for the specification (bad witness or operand out of range): %s" % json.dumps(ev)[:700])
+        x = v["exp"]
+        exp = x["out"] + (" " + scaled(scale[ev["t"]], zval(x["r"])) if x["out"].startswith("ok") else "")
+        sig = {"kind": "fx", "type": ev["t"], "op": ev["op"], "rule": ev["rule"] or "none", "class": v["cls"], "dev": v["dev"],
+               "out": ev["out"].split(" ")[0], "via": "+".join(ev["via"])}
+        ctx.report(sig, "rejected by FixedPointJudge (%s): %s   SPEC EXPECTS %s" % (v["cls"], fx_desc(ev, scale[ev["t"]]), exp), ev)
+    distinct, errs, classes = set(), 0, {}
+    for e in events:
+        a, b, c = zval(e["a"]), zval(e["b"]), zval(e["c"])
+        if e["out"] != "ok":
+            errs += 1
+        if a != 0 and b != 0:
+            distinct.add((e["t"], e["op"], e["rule"], a, b, c))
+    for e in (events[len(events) // 7], events[len(events) // 2], events[-3]):
+        ctx.add_sample({"kind": "fixed-point event judged by TLC", "event": fx_desc(e, scale[e["t"]])})
+    ctx.log("fixed point: %d cases, %d events judged in %d TLC chunks, %d error outcomes" % (summ["cases"], judged, nchunks, errs))
+    return ctx.finish({
+        "evaluations": summ["observations"],
+        "distinct_nontrivial": len(distinct),
+        "rule": "distinct (type, operation, rounding rule, a, b, c) cases with non-zero a and b (spec boundary sets, range-straddling and "
+                "sub-unit pairs, tie triples, seeded random); each executed through the value method and through scripts on interpreter and VM, "
+                "every distinct observation judged by TLC",
+        "exhaustive": False,
+        "cases": summ["cases"], "events_judged_by_tlc": judged, "error_outcomes": errs, "scripts_executed": summ["scripts"],
+        "tlc_judge_chunks": nchunks, "events_per_type_op": summ["per_type_op"],
+        "operand_sets": {o["t"]: {"vals": len(o["vals"]), "core": len(o["core"]), "pairs": len(o["pairs"]), "triples": len(o["triples"])} for o in ops},
+    }, assumptions=[
+        "TLC and the CommunityModules Json module are trusted; the Go driver only executes and records; its witnesses (exact rounded "
+        "results computed with math/big) are accepted by the specification only when they satisfy the uniquely solvable rounding relation "
+        "(uniqueness checked by TLC in FixedPointLaws)",
+        "operands are sampled (spec-defined boundary sets + seeded random), not exhaustive",
+        "overflow vs. underflow is not distinguished (the property allows either); saturating operations belong to C13",
+    ])
+
+
+# ================================================================================================ C16
+CVBASE = BIG + ["num/Convert.tla"]
+
+
+def cv_desc(e, scale):
+    s = "%s  ->  %s" % (e["expr"], e["out"])
+    if e["out"] == "ok":
+        s += " " + scaled(scale[e["u"]], zval(e["r"]))
+    return s + "   observed via " + "+".join(e["via"])
+
+
+def cv_controls(events):
+    def pick(pred, what):
+        e = next((e for e in events if pred(e)), None)
+        if e is None:
+            raise Infra("no event suitable for the negative control (%s)" % what)
+        return json.loads(json.dumps(e))
+    big = lambda e: e["out"] == "ok" and e["r"]["m"] and e["r"]["m"][0] >= 2
+    c1 = pick(lambda e: big(e) and e["s"] == "Fix64" and e["u"] == "Int32", "Fix64->Int32"); c1["k"] = 0; c1["r"]["m"][0] ^= 1
+    c2 = pick(lambda e: big(e) and e["u"] == "Word8" and e["s"] == "Int16", "Int16->Word8"); c2["k"] = -1; c2["out"] = "overflow"
+    c2["r"] = {"n": False, "m": []}
+    c3 = pick(lambda e: e["out"] in ("overflow", "underflow") and e["u"] == "UInt8" and e["s"] == "Int", "Int->UInt8 range error"); c3["k"] = -2
+    c3["out"] = "ok"; c3["r"] = {"n": False, "m": [255]}
+    c4 = pick(lambda e: big(e) and e["rule"] == "nearestHalfEven" and e["s"] == "Fix128", "Fix128->Fix64 half-even"); c4["k"] = -3
+    c4["r"]["m"][0] ^= 1
+    return [c1, c2, c3, c4]
+
+
+def check_C16(ctx):
+    _env()
+    binary = ctx.build("numfix")
+    # one ConvertSources run per group of source types (parallel)
+    tjob = types_job()
+    r0 = par_tlc(ctx, [tjob])[0]
+    sema, spec, rules = check_sema(ctx, binary, r0)
+    names = sorted(spec["types"])
+    groups = [names[i::6] for i in range(6)]
+    jobs = []
+    for gi, g in enumerate(groups):
+        cfg = write_cfg(ctx, "ConvertSources_%d.cfg" % gi,
+                        "SPECIFICATION Spec\nCONSTANTS Sel = {%s}\n Dense = %s\nINVARIANT Emit\n" % (
+                            ", ".join('"%s"' % t for t in g), "FALSE" if ctx.quick else "TRUE"))
+        jobs.append({"files": CVBASE + ["num/ConvertSources.tla", cfg], "module": "ConvertSources", "cfg": os.path.basename(cfg),
+                     "tag": "sources-%d" % gi, "timeout": 1500})
+    res = par_tlc(ctx, jobs)
+    srcs = [x for r in res for x in r.json_lines()]
+    if sorted(x["s"] for x in srcs) != names:
+        raise Infra("ConvertSources printed %d source types, expected %d" % (len(srcs), len(names)))
+    # which conversion functions take a rounding argument is read from sema, not assumed
+    rounding_targets = sorted(t for t in names if "rounding" in sema[t]["conv_params"])
+    for t in names:
+        if sema[t]["conv_params"] not in (["value"], ["value", "rounding"]):
+            raise Infra("sema declares the conversion function %s%s; the driver renders (value) / (value, rounding:)" % (t, sema[t]["conv_params"]))
+    spath = os.path.join(ctx.work, "cv.sources.ndjson")
+    write_ndjson(spath, srcs)
+    tpath = os.path.join(ctx.work, "cv.trace.ndjson")
+    nrand = 6 if ctx.quick else 60
+    ctx.run([binary, "cv", spath, tpath, str(nrand)], timeout=3000)
+    summ, events = split_out(ctx, tpath, "cv")
+    if summ["pairs_with_events"] != len(names) ** 2:
+        raise Infra("only %d of %d (source, target) pairs were exercised" % (summ["pairs_with_events"], len(names) ** 2))
+    for e in events:
+        if e["out"].startswith("other:") and ("Checker" in e["out"] or "Pars" in e["out"]):
+            raise Infra("generated script rejected by the checker: %s" % e["out"])
+    files = CVBASE + ["num/ConvertJudge.tla", "num/ConvertJudge.cfg"]
+    verdicts, judged, nchunks = judge_chunks(ctx, events, files, "ConvertJudge", "ConvertJudge.cfg", "cvjudge", cv_controls(events))
+    byk = {e["k"]: e for e in events}
+    scale = {t: spec["types"][t]["scale"] for t in names}
+    for v in verdicts:
+        ev = byk[v["k"]]
+        if v["v"] == "malformed":
+            raise Infra("conversion event malformed for the specification (bad witness or source out of range): %s" % json.dumps(ev)[:700])
+        x = v["exp"]
+        exp = x["out"] + (" " + scaled(scale[ev["u"]], zval(x["r"])) if x["out"] == "ok" else "")
+        sig = {"kind": "convert", "source": ev["s"], "target": ev["u"], "source_kind": v["sk"], "target_kind": v["uk"],
+               "rule": "given" if ev["rule"] else "none", "class": v["cls"], "dev": v["dev"], "out": ev["out"].split(" ")[0]}
+        ctx.report(sig, "rejected by ConvertJudge (%s, deviation %s): %s   SPEC EXPECTS %s" % (v["cls"], v["dev"], cv_desc(ev, scale), exp), ev)
+    distinct, errs = set(), 0
+    for e in events:
+        if e["out"] != "ok":
+            errs += 1
+        if zval(e["a"]) != 0:
+            distinct.add((e["s"], e["u"], e["rule"], zval(e["a"])))
+    for e in (events[len(events) // 9], events[len(events) // 2], events[-5]):
+        ctx.add_sample({"kind": "conversion event judged by TLC", "event": cv_desc(e, scale)})
+    ctx.log("conversions: %d cases over %d pairs, %d events judged in %d TLC chunks, %d error outcomes" % (
+        summ["cases"], summ["pairs"], judged, nchunks, errs))
+    return ctx.finish({
+        "evaluations": summ["observations"],
+        "distinct_nontrivial": len(distinct),
+        "rule": "distinct (source type, target type, rounding rule, non-zero source value) conversions: sources at and around every target "
+                "type's bounds (ConvertSources.tla) plus seeded random ones, each executed through the conversion function in scripts on "
+                "interpreter and VM, every distinct observation judged by TLC",
+        "exhaustive": False,
+        "numeric_types": len(names), "pairs_exercised": summ["pairs_with_events"], "min_events_per_pair": summ["min_events_per_pair"],
+        "max_events_per_pair": summ["max_events_per_pair"], "cases": summ["cases"], "events_judged_by_tlc": judged, "error_outcomes": errs,
+        "conversion_functions_with_rounding_argument": rounding_targets, "rounding_rules": rules,
+        "scripts_executed": summ["scripts"], "tlc_judge_chunks": nchunks,
+    }, assumptions=[
+        "sema declares 24 concrete numeric types with conversion functions (the property statement counts 27); all 24 x 24 pairs are exercised",
+        "TLC and the CommunityModules Json module are trusted; the Go driver only renders scripts, executes and records; its witnesses are "
+        "accepted by the specification only when they satisfy the uniquely solvable rounding relation",
+        "sources are sampled (spec-defined sets around every target bound + seeded random), not exhaustive",
+        "overflow vs. underflow is not distinguished (the property allows either)",
+    ])
+
+
 META = {
+    "C15": {
+        "level_text": "For Fix64, UFix64, Fix128 and UFix128: + - * / % and multiplyDivide (without a rule and with each of the four rounding rules) are executed on spec-defined boundary operands (0, +-1 unit, +-1.0, 0.5, min, max, pairs whose product or quotient straddles the range or is below one unit, tie and near-tie triples) plus seeded random operands, through the interpreter's value methods and through scripts on interpreter and VM; every distinct observation is judged by TLC against the relational specification on exact integers (truncation / rounding as inequalities between products, failure iff the exact rounded result is outside [min,max], division by zero, remainder by decomposition).",
+        "level_note": "Sampled operands, not exhaustive. Trusted: TLC, the driver's operand construction and limb encoding; witnesses are checked by the specification (unique solution, FixedPointLaws).",
+        "technique": "TLA+ specification (spec/num: Bignum, ConvertTypes, FixedPoint, FixedPointOperands, FixedPointJudge, FixedPointLaws) checked with TLC; relational trace validation of recorded operations (E3)",
+        "design_ref": "DESIGN.md section 5 C15, Appendix A.7", "engine": "E3 relational trace",
+    },
+    "C16": {
+        "level_text": "All 24 x 24 (source type, target type) pairs of the concrete numeric types: sources at and around every target type's bounds (bound +- 1 unit, +- one and half a target unit, +- 1.0 / 0.5, Word moduli), general values (0, +-1.0, +-0.5, ties to even, min, max) and seeded random values are converted through the conversion functions in scripts on interpreter and VM - without a rounding argument and, where sema declares one (Fix64, UFix64), with each rounding rule; every distinct observation is judged by TLC: same value if representable, truncation toward zero or rounding by the rule stated as inequalities, Word targets reduce the integer part modulo 2^n, otherwise overflow/underflow.",
+        "level_note": "Sampled sources, not exhaustive. Three known defects (all with Fix128/UFix128 sources) are matched as exact deviant formulas of the specification.",
+        "technique": "TLA+ specification (spec/num: Bignum, ConvertTypes, Convert, ConvertSources, ConvertJudge) checked with TLC; relational trace validation of recorded conversions (E3)",
+        "design_ref": "DESIGN.md section 5 C16, section 7 #8b #8c", "engine": "E3 relational trace",
+    },
     "C21": {
         "level_text": "The InclusiveRange constructor/iterator/denotation state machine (RangeIter.tla) is model-checked by TLC: exhaustively over every start, end and step of a 16-value signed and unsigned type (invariants: yields exactly the denoted arithmetic sequence, never needs a value outside the type, denotation by sequence and by membership agree; termination under weak fairness) and for Int8, UInt8, Word8 over boundary-biased argument sets. Every terminal state of the 8-bit instances is a table row that is compared with the real runtime on interpreter and VM: constructor outcome, step field, the list a for-in loop yields, and contains(x) for all 256 values. For Int16..Int256, UInt16..UInt256, Int, UInt, Word16..Word256 ranges anchored at min/max/0/+-1 with dividing and non-dividing steps are executed the same way and every recorded observation is judged by TLC on exact integers.",
         "level_note": "8-bit argument sets are boundary-biased, not all 2^24 triples; wide types are sampled with short sequences. Four known defects are matched as named deviations of the specification (exact prediction required).",
